@@ -1583,6 +1583,40 @@ Section Hash.
     let u := w64 (w64 m + w64 ne) in
     if u <? 2 ^ 63 - 1 then u else M64 - 1 - u.
 
+  (* strings: hash.long over the bytes; string.__eq: equal sizes and (same pointer, or empty, or memory.equals) -
+     as a function of the contents: the same bytes *)
+  Definition hash_string (s : list Z) : Z := hash_long s.
+  Fixpoint bytes_eqb (a b : list Z) : bool :=
+    match a, b with
+    | [], [] => true
+    | x :: a', y :: b' => (x =? y) && bytes_eqb a' b'
+    | _, _ => false
+    end.
+  Definition str_eqb (a b : list Z) : bool := (length a =? length b)%nat && bytes_eqb a b.
+
+  (* float32 given by its IEEE-754 bit pattern 0 <= bits < 2^32: the same code path with frexpf; the product
+     frexpf(v) * 2^63 is exact in float32 (24 significant bits times a power of two) *)
+  Definition g_sign (bits : Z) : bool := Z.testbit bits 31.
+  Definition g_exp (bits : Z) : Z := Z.land (Z.shiftr bits 23) 255.
+  Definition g_frac (bits : Z) : Z := Z.land bits (2 ^ 23 - 1).
+  Definition g_iszero (bits : Z) : bool := (g_exp bits =? 0) && (g_frac bits =? 0).
+  Definition g_isnan (bits : Z) : bool := (g_exp bits =? 255) && negb (g_frac bits =? 0).
+  Definition g_isinf (bits : Z) : bool := (g_exp bits =? 255) && (g_frac bits =? 0).
+  Definition g_eqb (a b : Z) : bool :=
+    negb (g_isnan a) && negb (g_isnan b) && ((a =? b) || (g_iszero a && g_iszero b)).
+  Definition g_frexp63 (bits : Z) : Z * Z :=
+    let e := g_exp bits in
+    let fr := g_frac bits in
+    let '(m, ne) :=
+      if e =? 0 then let k := Z.log2 fr + 1 in (Z.shiftl fr (63 - k), k - 149)
+      else (Z.shiftl (2 ^ 23 + fr) 39, e - 126) in
+    (if g_sign bits then - m else m, ne).
+  Definition hash_float32 (bits : Z) : Z :=
+    if g_iszero bits || g_isnan bits || g_isinf bits then 0 else
+    let '(m, ne) := g_frexp63 bits in
+    let u := w64 (w64 m + w64 ne) in
+    if u <? 2 ^ 63 - 1 then u else M64 - 1 - u.
+
   (* records without __hash and arrays: the element/field hashes folded with hash.combine (0 when there is none) *)
   Definition hash_fold (hs : list Z) : Z :=
     match hs with
@@ -1625,6 +1659,125 @@ Section Tokens.
   (* predicate family for removeif / erase during iteration *)
   Definition tok_pred (m r t : Z) : bool := tok_canon t mod m =? r.
 End Tokens.
+
+(* ------------------------------------------------------------------ iterators.nelua
+   `for c, e in f, s, c0 do body end` calls f(s, c) with the previous control value until it answers false.  The
+   iterator functions are stateless: ipairs/mipairs/pairs/mpairs return (function, container, initial control), next
+   and mnext are the function itself.  The container is threaded as a state because an element access may touch it
+   (sequence.__atindex initialises) and because mipairs/mpairs hand out references through which the body writes. *)
+Section ForLoop.
+  Variables St C E : Type.
+  (* the loop with a body that only records what it is given: the visited (control, element) pairs, in order *)
+  Fixpoint for_in (fuel : nat) (nxt : St -> C -> res (St * option (C * E))) (s : St) (c : C) : res (St * list (C * E)) :=
+    match fuel with
+    | 0 => Trap TrapFuel
+    | S f =>
+        r <- nxt s c ;;
+        match snd r with
+        | None => Ok (fst r, [])
+        | Some (c', e) => q <- for_in f nxt (fst r) c' ;; Ok (fst q, (c', e) :: snd q)
+        end
+    end.
+  (* the loop with a body that acts on the container (through the references it is given) *)
+  Fixpoint for_do (fuel : nat) (nxt : St -> C -> res (St * option (C * E))) (body : C -> E -> St -> res St)
+                  (s : St) (c : C) : res St :=
+    match fuel with
+    | 0 => Trap TrapFuel
+    | S f =>
+        r <- nxt s c ;;
+        match snd r with
+        | None => Ok (fst r)
+        | Some (c', e) => s' <- body c' e (fst r) ;; for_do f nxt body s' c'
+        end
+    end.
+  (* impl_ipairs_next / impl_mipairs_next: k = k + 1; if k >= #a + (1 when one-indexed) then false else a[k] / &a[k] *)
+  Definition ip_next (one : nat) (len : St -> nat) (at_ : nat -> St -> res (St * E)) (s : St) (k : Z)
+    : res (St * option (Z * E)) :=
+    let k' := (k + 1)%Z in
+    if (Z.of_nat (len s + one) <=? k')%Z then Ok (s, None)
+    else p <- at_ (Z.to_nat k') s ;; Ok (fst p, Some (k', snd p)).
+End ForLoop.
+
+Section Iterators.
+  Variable T : Type.
+  Variable dflt : T.
+  (* ---- vector: zero-indexed, initial control -1.  A reference &v[i] is the index of the cell in the storage. *)
+  Definition vec_get (i : nat) (v : vec T) : res (vec T * T) := x <- vec_at T i v ;; Ok (v, x).
+  Definition vec_ref (i : nat) (v : vec T) : res (vec T * nat) := if vsize T v <=? i then Trap TrapPos else Ok (v, i).
+  Definition vec_ref_read (r : nat) (v : vec T) : res T := sget r (vdata T v).
+  Definition vec_ref_write (r : nat) (x : T) (v : vec T) : res (vec T) :=
+    d <- sset r x (vdata T v) ;; Ok (mkvec T d (vsize T v)).
+  Definition vec_ipairs_next := ip_next (vec T) T 0 (vec_len T) vec_get.          (* also next(v, k) and pairs(v) *)
+  Definition vec_mipairs_next := ip_next (vec T) nat 0 (vec_len T) vec_ref.       (* also mnext(v, k) and mpairs(v) *)
+  Definition vec_ipairs (v : vec T) := for_in (vec T) Z T (S (vec_len T v)) vec_ipairs_next v (-1)%Z.
+  (* for i, x in mipairs(v) do $x = f($x) end *)
+  Definition vec_mipairs_map (f : T -> T) (v : vec T) : res (vec T) :=
+    for_do (vec T) Z nat (S (vec_len T v)) vec_mipairs_next
+           (fun _ r v => x <- vec_ref_read r v ;; vec_ref_write r (f x) v) v (-1)%Z.
+  (* ---- sequence: one-indexed, initial control 0; the access is sequence.__atindex *)
+  Definition seq_ipairs_next := ip_next (seq T) T 1 (seq_len T) (seq_get T dflt).
+  Definition seq_pairs (s : seq T) := for_in (seq T) Z T (S (seq_len T s)) seq_ipairs_next s 0%Z.
+  (* ---- span: the storage is fixed, the container is the fat pointer *)
+  Definition span_ipairs_next (mem : list T) :=
+    ip_next spanw T 0 sp_size (fun i w => x <- spw_at T i mem w ;; Ok (w, x)).
+  Definition span_ipairs (mem : list T) (w : spanw) := for_in spanw Z T (S (sp_size w)) (span_ipairs_next mem) w (-1)%Z.
+  (* ---- list: listT.__next / __mnext; the control is the node pointer (nilptr first); a reference is the node *)
+  Definition dl_next_node (node : option nat) (d : dlist T) : res (option nat) :=
+    match node with
+    | None => Ok (lfront T d)
+    | Some i => nd <- lget T i (larena T d) ;; Ok (lnext T nd)
+    end.
+  Definition dl_next (d : dlist T) (node : option nat) : res (dlist T * option (option nat * T)) :=
+    nn <- dl_next_node node d ;;
+    match nn with
+    | None => Ok (d, None)
+    | Some j => nd <- lget T j (larena T d) ;; Ok (d, Some (Some j, lval T nd))
+    end.
+  Definition dl_mnext (d : dlist T) (node : option nat) : res (dlist T * option (option nat * nat)) :=
+    nn <- dl_next_node node d ;;
+    match nn with
+    | None => Ok (d, None)
+    | Some j => nd <- lget T j (larena T d) ;; Ok (d, Some (Some j, j))
+    end.
+  Definition dl_pairs (d : dlist T) := for_in (dlist T) (option nat) T (S (length (larena T d))) dl_next d None.
+  Definition set_lval (x : T) (nd : lnode T) := mklnode T (lprev T nd) (lnext T nd) x (lalive T nd).
+  (* for node, x in mpairs(l) do $x = f($x) end *)
+  Definition dl_mpairs_map (f : T -> T) (d : dlist T) : res (dlist T) :=
+    for_do (dlist T) (option nat) nat (S (length (larena T d))) dl_mnext
+           (fun _ r d => a <- lupd T r (fun nd => set_lval (f (lval T nd)) nd) (larena T d) ;;
+                         Ok (mkdl T a (lfront T d) (lback T d))) d None.
+End Iterators.
+
+Section HashMapIterators.
+  Variables K V : Type.
+  (* hashmap_iteratorT {container, index}: next/mnext ignore the key; the control carried here is the index *)
+  Definition hm_it_next (m : hmap K V) (it : option nat) : res (hmap K V * option (option nat * (K * V))) :=
+    Ok (m, match hm_iter_next K V it m with
+           | None => None
+           | Some (i, nd) => Some (Some i, (nkey K V nd, nval K V nd))
+           end).
+  Definition hm_it_mnext (m : hmap K V) (it : option nat) : res (hmap K V * option (option nat * nat)) :=
+    Ok (m, match hm_iter_next K V it m with
+           | None => None
+           | Some (i, nd) => Some (Some i, i)
+           end).
+  Definition hm_for_pairs (m : hmap K V) :=
+    for_in (hmap K V) (option nat) (K * V) (S (length (hnodes K V m))) hm_it_next m None.
+  (* for k, v in mpairs(m) do $v = f($v) end : the reference is the node whose value field is written *)
+  Definition hm_for_mpairs (f : V -> V) (m : hmap K V) : res (hmap K V) :=
+    for_do (hmap K V) (option nat) nat (S (length (hnodes K V m))) hm_it_mnext
+           (fun _ r m => nd <- sget r (hnodes K V m) ;;
+                         ns <- sset r (set_val K V (f (nval K V nd)) nd) (hnodes K V m) ;;
+                         Ok (mkhm K V (hbuckets K V m) ns (hsize K V m) (hfree K V m))) m None.
+End HashMapIterators.
+
+(* select(i, ...) on the argument list: a positive i drops i-1 arguments, a negative one counts from the end;
+   select('#', ...) is the number of arguments.  Out-of-range indices are compile-time errors. *)
+Definition select_from {A} (i : Z) (args : list A) : option (list A) :=
+  if ((1 <=? i) && (i <=? Z.of_nat (length args)))%Z then Some (skipn (Z.to_nat (i - 1)) args)
+  else if ((i <=? -1) && (- Z.of_nat (length args) <=? i))%Z then Some (skipn (Z.to_nat (Z.of_nat (length args) + i)) args)
+  else None.
+Definition select_count {A} (args : list A) : nat := length args.
 
 (* ====================================================================================================
    Part II - the vocabulary of the theorem statements (coq/C12/Properties.v): well-formedness predicates and
